@@ -70,6 +70,22 @@ def main():
     from .api import call
     from .common import digest
     objs = object_list(thorough)
+    # equal values built along different paths: plain dicts with enumeration keys / sets / nested dicts, filled in one order in
+    # the even environments and in the opposite order in the odd ones (equal objects, identical output)
+    from cryptoparser.tls.subprotocol import TlsAlertDescription, TlsContentType
+    from cryptoparser.tls.mysql import MySQLCapability
+    from cryptodatahub.common.algorithm import Hash
+    synth = []
+    for keys in (list(TlsAlertDescription)[:5], list(TlsContentType), [Hash.SHA2_256, Hash.SHA1, Hash.MD5], ['b', 'a', 'c']):
+        ks = list(keys) if env % 2 == 0 else list(reversed(keys))
+        d = {}
+        for i, k in enumerate(ks):
+            d[k] = str(k) if not hasattr(k, 'name') else k.name
+        synth.append(d)
+        synth.append({'outer': dict(d), 'flags': set(list(MySQLCapability)[:6] if env % 2 == 0 else reversed(list(MySQLCapability)[:6]))})
+    holder_cls = type(objects.holder(None))
+    for v in synth:
+        objs.append((holder_cls, objects.holder(v)))
     idx = list(range(len(objs)))
     if order == 'reverse':
         idx.reverse()
